@@ -918,13 +918,19 @@ def sha_file(p):
     return hashlib.sha256(p.read_bytes()).hexdigest()
 
 
-def sha_tree(root):
+def sha_tree(root, mtime=False):
+    """rel path -> sha256 of the bytes (with mtime=True also inode and mtime_ns, which reveal a rewrite with identical bytes)."""
     root = pathlib.Path(root)
     if not root.exists():
         return None
     out = {}
     for q in sorted(root.rglob("*")):
-        out[str(q.relative_to(root))] = DIR if q.is_dir() else hashlib.sha256(q.read_bytes()).hexdigest()
+        if q.is_dir():
+            out[str(q.relative_to(root))] = DIR
+        else:
+            h = hashlib.sha256(q.read_bytes()).hexdigest()
+            st = q.stat()
+            out[str(q.relative_to(root))] = (h, st.st_ino, st.st_mtime_ns) if mtime else h
     return out
 
 
